@@ -25,5 +25,11 @@ pub mod tls;
 mod tx_index;
 pub mod watcher;
 
+/// Verification hook (H4): re-exports crate-private items to the external verification harness.
+#[cfg(feature = "verif")]
+pub mod verif_export {
+    pub use crate::tx_index::{Key, TxIndex, Value};
+}
+
 #[cfg(test)]
 mod test_utils;
